@@ -39,6 +39,7 @@ Clauses == <<
 >>
 TInit == tid \in 1..NT /\ entry = Case.entry /\ malformed = Case.malformed /\ cfg = <<>> /\ phase = "done"
          /\ loaded = {} /\ spawned = <<>> /\ handshakes = {} /\ outcome = "none"
+         /\ run = 1 /\ hostEpoch = 0 /\ snapshot = NoSnapshot
 TNext == UNCHANGED <<vars, tid>>
 TSpec == TInit /\ [][TNext]_<<vars, tid>>
 Judge == JudgeAll(tid, Clauses, Case.entry) /\ Accept(tid)
